@@ -73,9 +73,18 @@ func (d *DebugDialer) Dial(ctx context.Context, urlstr string) (conn net.Conn, b
 		// We must split response inside buffered bytes from other received
 		// bytes from server.
 		p := resBuf.Bytes()
-		n := bytes.Index(p, headEnd)
-		h := n + len(headEnd)         // Head end index.
-		n = h + int(resContentLength) // Body end index.
+		h := bytes.Index(p, headEnd)
+		if h == -1 {
+			// No complete response head has been received (e.g. the peer
+			// has closed the connection): report what we have.
+			h = len(p)
+		} else {
+			h += len(headEnd) // Head end index.
+		}
+		n := h + int(resContentLength) // Body end index.
+		if n < h || n > len(p) {
+			n = len(p)
+		}
 
 		onResponse(p[:n])
 
